@@ -3,6 +3,8 @@ package main
 import (
 	"bytes"
 	"fmt"
+	"net/netip"
+	"time"
 
 	"github.com/mycoria/mycoria/frame"
 	"github.com/mycoria/mycoria/m"
@@ -134,5 +136,98 @@ func c12SwitchTraversal(c *Ctx, F, R []uint16) error {
 	}
 	run("return", rev, bo.rb, append(want2, 0), bo.fb)
 	c.Count(fmt.Sprintf("switch-traversal:n=%d", n))
+	return nil
+}
+
+// c12TableRefresh: switch paths as the routing table stores them.  A route is announced, then the
+// same route (same routers) is announced again with other labels — a relay re-established a link
+// and drew another label — and sometimes with labels that no longer fit a switch block.  After
+// every addition, every stored route's blocks must be the blocks of the path that entry shows
+// (so that rotating them yields that path's labels), and a path that cannot fit is refused.
+func c12TableRefresh(c *Ctx) error {
+	self := addrFrom(0xfd1f_0000_1111_2222, 0x3333_4444_5555_0001)
+	prefix := netip.PrefixFrom(self, m.RegionPrefixBits).Masked()
+	if mk, err := m.LookupCountryMarker(self); err == nil {
+		prefix = mk.Prefix
+	}
+	cfg := m.RoutingTableConfig{RoutablePrefixes: m.GetRoutablePrefixesFor(self, prefix), RouterIP: self}
+	randLabel := func(class int) uint16 {
+		switch class {
+		case 0:
+			return uint16(1 + c.Rng.IntN(127))
+		case 1:
+			return uint16(128 + c.Rng.IntN(16383-127))
+		default:
+			return uint16(16384 + c.Rng.IntN(65535-16383))
+		}
+	}
+	for it, n := 0, c.Pick(30, 200); it < n; it++ {
+		tbl := m.NewRoutingTable(cfg)
+		peer := addrFrom(0xfd1f_0000_0010_0000, uint64(0xaa00+it))
+		_, _ = tbl.AddRoute(m.RoutingTableEntry{DstIP: peer, NextHop: peer, Source: m.RouteSourcePeer})
+		nHops := 3 + c.Rng.IntN(5)
+		if it%9 == 0 {
+			nHops = 60 + c.Rng.IntN(42) // long paths: the second labelling may not fit into 255 bytes
+		}
+		routers := []netip.Addr{self, peer}
+		for k := 2; k < nHops-1; k++ {
+			routers = append(routers, addrFrom(0xfd35_0000_0000_0000|uint64(k)<<16, uint64(0xee00+k)))
+		}
+		dst := addrFrom(0xfd1f_0000_0030_0000|uint64(it), uint64(0x9000+it))
+		routers = append(routers, dst)
+		mk := func(class func() int) []m.SwitchHop {
+			hops := make([]m.SwitchHop, len(routers))
+			for k, r := range routers {
+				hops[k] = m.SwitchHop{Router: r, Delay: uint16(5 + c.Rng.IntN(40))}
+				if k < len(routers)-1 {
+					hops[k].ForwardLabel = m.SwitchLabel(randLabel(class()))
+				}
+				if k > 0 {
+					hops[k].ReturnLabel = m.SwitchLabel(randLabel(class()))
+				}
+			}
+			return hops
+		}
+		small := func() int { return 0 }
+		mixed := func() int { return c.Rng.IntN(3) }
+		big := func() int { return 2 }
+		labelings := [][]m.SwitchHop{mk(small), mk(mixed)}
+		if nHops >= 60 {
+			labelings = append(labelings, mk(big), mk(small))
+		} else {
+			labelings = append(labelings, mk(mixed))
+		}
+		for step, hops := range labelings {
+			e := m.RoutingTableEntry{DstIP: dst, NextHop: peer, Path: m.SwitchPath{Hops: append([]m.SwitchHop(nil), hops...)}, Source: m.RouteSourceGossip, Expires: time.Now().Add(time.Hour)}
+			var added bool
+			var err error
+			pan, _ := recoverPanic(func() { added, err = tbl.AddRoute(e) })
+			c.Eval()
+			want := buildReal(hops)
+			rep := map[string]any{"hops": coqHops(hops), "step": step, "via": "routing-table"}
+			if pan {
+				c.Violate("AddRoute panicked on a re-announced route", "table-refresh-panic", rep)
+				break
+			}
+			if want.code != 0 && (added || err == nil) {
+				c.Violate(fmt.Sprintf("a re-announced route whose labels do not fit a switch block was not refused (added=%v, err=%v)", added, err), "table-refresh-too-big-accepted", rep)
+			}
+			for _, ent := range tbl.VerifEntries() {
+				if len(ent.Path.Hops) < 2 {
+					continue
+				}
+				bo := buildReal(ent.Path.Hops)
+				if bo.code != 0 {
+					c.Violate("the routing table holds a route whose path cannot be built into switch blocks", "table-refresh-unbuildable", rep)
+					continue
+				}
+				if !bytes.Equal(ent.Path.ForwardBlock, bo.fb) || !bytes.Equal(ent.Path.ReturnBlock, bo.rb) {
+					c.Violate(fmt.Sprintf("a stored route's switch blocks are not the blocks of the path it shows: forward %v / return %v, the path builds to %v / %v (rotating the stored block does not yield the path's labels)", ent.Path.ForwardBlock, ent.Path.ReturnBlock, bo.fb, bo.rb), "table-refresh-stale-blocks", rep)
+				}
+			}
+			c.Count(fmt.Sprintf("table-refresh:step%d/code%d", step, want.code))
+		}
+		c.NonTrivial(fmt.Sprintf("table-refresh/%d", nHops))
+	}
 	return nil
 }
